@@ -920,6 +920,8 @@ def rule_thresholds(ctx):
     """Thresholds as numbers: the number is the count of seconds, fraction included.  A spatial-only search (max_interval=None) still
     honours [start, end] and answers "no pair" with None."""
     ctx.rule("C04.thresholds", "T5", "a numeric max_interval keeps its fraction; the spatial-only mode keeps the period and the empty answer")
+    from .C16 import ob_time_resolution
+    ob_time_resolution(ctx)
     rule_fraction(ctx)
     rule_spatial_only(ctx)
 
